@@ -67,9 +67,97 @@ def eval_detect(case: dict) -> dict:
     }
 
 
+def build_twin(case: dict) -> dict:
+    """collision-seeking twin (DESIGN 9.7): optimise the neutral program, harvest what ngo invented, and build the
+    program whose *source* already uses exactly those names"""
+    from clingo.ast import ASTType, Variable
+
+    neutral = checks.Ctx({**case, "twin": None})
+    if not neutral.parse_ok:
+        return case
+    neutral.declare()
+    rec = neutral.run()
+    if rec.result is None:
+        return case
+    kind = case["twin"]
+    new = dict(case)
+    new["twin"] = None
+    new["twin_of"] = case["id"]
+    if kind == "decoy":
+        invented = set(refast.vocabulary(rec.result)) - set(neutral.voc_source)
+        for stage in rec.stage_asts:
+            invented |= set(refast.vocabulary(stage)) - set(neutral.voc_source)
+        invented |= {(n["name"], n["arity"]) for n in rec.names if n["kind"] == "predicate"} - set(neutral.voc_source)
+        invented = {p for p in invented if not p[0].startswith("-")}
+        if not invented:
+            return case
+        facts = []
+        for name, arity in sorted(invented):
+            facts.append(f"{name}({','.join(['vfd'] * arity)})." if arity else f"{name}.")
+        new["program"] = case["program"].rstrip() + "\n" + "\n".join(facts) + "\n"
+        out = case["out"] if case["out"] != "auto" else [[p.name, p.arity] for p in neutral.out]
+        new["out"] = [list(p) for p in out] + [list(p) for p in sorted(invented)]
+        if case["in"] == "auto":
+            new["in"] = [[p.name, p.arity] for p in neutral.inp]
+        new["harvested"] = [list(p) for p in sorted(invented)]
+    elif kind == "vars":
+        src_vars = set()
+        for stm in neutral.source:
+            src_vars.update(refast.variables(stm))
+        harvested: list[str] = []
+        for stage in rec.stage_asts:
+            for stm in stage:
+                for v in refast.variables(stm):
+                    if v not in src_vars and v != "_" and v not in harvested:
+                        harvested.append(v)
+        if not harvested:
+            return case
+        stmts = []
+        for stm in neutral.source:
+            names = sorted({v for v in refast.variables(stm) if v != "_"})
+            # avoid merging two source variables
+            targets = [h for h in harvested if h not in names] or harvested
+            if len(names) > len(targets):
+                stmts.append(str(stm))
+                continue
+            ren = dict(zip(names, targets))
+
+            def rn(node, ren=ren):
+                upd = {}
+                for key in node.child_keys:
+                    val = getattr(node, key)
+                    if val is None:
+                        continue
+                    if hasattr(val, "ast_type"):
+                        upd[key] = rn(val)
+                    else:
+                        try:
+                            upd[key] = [rn(x) if hasattr(x, "ast_type") else x for x in val]
+                        except TypeError:
+                            pass
+                if node.ast_type == ASTType.Variable and node.name in ren:
+                    return Variable(node.location, ren[node.name])
+                return node.update(**upd) if upd else node
+
+            stmts.append(str(rn(stm)))
+        new["program"] = "\n".join(s for s in stmts if s != "#program base.") + "\n"
+        new["harvested"] = harvested
+    return new
+
+
 def eval_opt(case: dict) -> dict:
     prop = case["prop"]
     want = set(case["checks"])
+    twin_info = None
+    if case.get("twin"):
+        try:
+            twinned = build_twin(case)
+        except Exception as exc:  # pylint: disable=broad-exception-caught
+            return {"verdict": "inconclusive", "reason": "twin-construction-failed", "error": str(exc)[:200]}
+        if twinned is case:
+            return {"verdict": "inconclusive", "reason": "nothing-invented-no-twin"}
+        case = twinned
+        twin_info = {"program": case["program"], "harvested": case.get("harvested")}
     ctx = checks.Ctx(case)
     if not ctx.parse_ok:
         return {"verdict": "inconclusive", "reason": "source-does-not-parse"}
@@ -179,6 +267,9 @@ def eval_opt(case: dict) -> dict:
         "out_digest": checks.digest(ctx.result_text) if rec.result is not None else None,
         "info": info,
     }
+    if twin_info:
+        res["info"]["twin"] = twin_info
+        res["twin_program"] = twin_info["program"]
     if case.get("want_output") and rec.result is not None:
         res["output"] = ctx.result_text
     if case.get("want_names"):
